@@ -1101,8 +1101,27 @@ func (g *c16Gen) reloadSeq() {
 	}
 	g.emit(C16Event{K: C16ReloadBuild})
 	order := g.r.Perm(len(g.cfg.Groups))
+	if g.r.IntN(2) == 0 {
+		// control.InheritDialerHealthFrom: per group capture the fallback and restore every dialer;
+		// the floors follow once every group has been restored (nodes are shared between groups)
+		for _, gi := range order {
+			g.emit(C16Event{K: C16CaptureFB, N: gi})
+			for _, m := range g.cfg.Groups[gi].Members {
+				g.emit(C16Event{K: C16RestoreNode, N: m})
+			}
+		}
+		if g.r.IntN(5) == 0 {
+			g.emit(g.randomEvent())
+		}
+		for _, gi := range order {
+			if g.r.IntN(20) < 17 {
+				g.emit(C16Event{K: C16FloorGroup, N: gi})
+			}
+		}
+		return
+	}
 	for _, gi := range order {
-		// control.InheritDialerHealthFrom, one group: capture fallback, restore every dialer, floor
+		// the primitives in another legal order, one group at a time: capture fallback, restore every dialer, floor
 		g.emit(C16Event{K: C16CaptureFB, N: gi})
 		for _, m := range g.cfg.Groups[gi].Members {
 			g.emit(C16Event{K: C16RestoreNode, N: m})
